@@ -172,14 +172,26 @@ def split_trace(path, parts):
     return out
 
 
-def tv_once(ctx, spec, cfg, trace, prop, name, timeout=1800, extra_env=None):
+def tv_once(ctx, spec, cfg, trace, prop, name, timeout=1800, extra_env=None, coverage=False):
     d = tlc_dir(ctx, name)
     env = dict(os.environ, TRACE=trace, PROP=prop, JAVA_TOOL_OPTIONS='-Dtlc2.tool.queue.IStateQueue=StateDeque')
     if extra_env:
         env.update(extra_env)
-    r = sh(['timeout', str(timeout), 'tlc', '-workers', '1', '-metadir', f'{d}/md', '-config', f'{cfg}.cfg', f'{spec}.tla'], cwd=d, env=env)
+    cmd = ['timeout', str(timeout), 'tlc', '-workers', '1', '-metadir', f'{d}/md', '-config', f'{cfg}.cfg']
+    if coverage:
+        cmd += ['-coverage', '1']
+    r = sh(cmd + [f'{spec}.tla'], cwd=d, env=env)
     open(f'{d}/tlc.out', 'w').write(r.stdout)
     shutil.rmtree(f'{d}/md', ignore_errors=True)
+    if coverage:
+        # which actions of the trace specification the real executions exercised (vacuity guard, goes into the evidence)
+        acts = {}
+        for mm in re.finditer(r'^<(T[A-Za-z]+) line \d+, col \d+ to line \d+, col \d+ of module \w+>: (\d+):(\d+)', r.stdout, re.M):
+            acts[mm.group(1)] = int(mm.group(3))
+        cov = getattr(ctx, 'tv_action_counts', {})
+        for k, v in acts.items():
+            cov[k] = cov.get(k, 0) + v
+        ctx.tv_action_counts = cov
     m = re.search(r'<<"TVMARK", (\d+), (\d+)>>', r.stdout)
     if not m and r.returncode == 124:
         return dict(timeout=True, accepted=False, mark=0, total=0, generated=0, distinct=0)
@@ -234,7 +246,8 @@ def validate(ctx, spec, trace, stats, prop, name, parallel=8, cfg=None, max_viol
         rej = []
         cur = fn
         for attempt in range(max_viol + 1):
-            res = tv_once(ctx, spec, cfg, cur, prop, f'{name}_{tag}_{attempt}', timeout=timeout, extra_env=extra_env)
+            res = tv_once(ctx, spec, cfg, cur, prop, f'{name}_{tag}_{attempt}', timeout=timeout, extra_env=extra_env,
+                          coverage=(tag == 'p0' and attempt == 0))
             if res.get('timeout'):
                 return rej, True
             ctx.tv_states += res['distinct']
@@ -327,6 +340,7 @@ def finish(ctx, level, rule, assumptions, extra=None):
         samples=ctx.samples[:4] or [{'note': 'no sample recorded'}],
         mc_jobs=ctx.mc_jobs, conformance=ctx.conf, tv_states=getattr(ctx, 'tv_states', 0),
         tv_skipped_too_expensive=getattr(ctx, 'tv_skipped', 0),
+        tv_action_counts_first_chunk=getattr(ctx, 'tv_action_counts', {}),
         known_findings_reported=[k['sig'] for k in ctx.known],
         notes=ctx.notes,
     )
